@@ -100,7 +100,7 @@ NATIVE_WITNESSES = {"c07_fnext_self": _native_fnext_self, "c07_upper_tie": _nati
 
 
 def make_world(ex, shape, real):
-    return World(ex, shape["n"], nprio=len(shape["methods"]), real=real)
+    return World(ex, shape["n"], nprio=len(shape.get("methods", ())), real=real)
 
 
 _MS = {}
@@ -171,8 +171,77 @@ class FactorySet:
         return hs, ns["LOG"], ns
 
 
+_DEPMS = {}
+
+
+def make_run_dep(W, shape, known_active=None):
+    """value-dependent methods sharing a rank: d_i = Dependent[K0, flag_i] (each delegating or returning), then a static
+    method on K0 and one on object.  Expected chain for an argument with flags (f0, f1[, f2]): if two or more hold -> ambiguity
+    error; if exactly one holds -> that method, then (if it delegates) the static K0 method, then object; if none -> the
+    static K0 method first.  No method is entered twice."""
+    from ovld import Ovld
+
+    kinds = shape["depkinds"]          # per dependent method: "next" | "ret" | "fnext"
+    skind = shape["statics"]           # kinds of the K0 and object methods
+    D = len(kinds)
+    key = repr((kinds, skind))
+    ms = _DEPMS.get(key)
+    if ms is None:
+        def body(m, k):
+            return {"ret": f"return ('ret', {m})", "next": "return call_next(x)", "fnext": "return F.next(x)"}[k]
+        specs = [dict(pos=[("x", ("Dep", ("K", 0), 3 + i), False)], body=body(i, k)) for i, k in enumerate(kinds)]
+        specs.append(dict(pos=[("x", ("K", 0), False)], body=body(D, skind[0])))
+        specs.append(dict(pos=[("x", ("obj",), False)], body=body(D + 1, skind[1])))
+        ms = _DEPMS[key] = MethodSet(specs)
+
+    def run(ctx):
+        hs, LOG, ns = ms.instantiate(W)
+        ov = Ovld()
+        for m in range(D + 2):
+            ov.register(hs[m], priority=(-1 if m == D + 1 else 0))
+        ns["F"] = ov.dispatch
+        flags = [bool(ctx.choose(f"flag{i}", 2)) for i in range(D)]
+        a = W.K[0]()
+        a.flag, a.flag2 = flags[0], (flags[1] if D > 1 else False)
+        del LOG[:]
+        old = sys.getrecursionlimit()
+        sys.setrecursionlimit(250)
+        try:
+            res = ov.dispatch(a)
+            term = ("ret", res[1]) if isinstance(res, tuple) and res[0] == "ret" else ("?", repr(res))
+        except TypeError as e:
+            msg = str(e)
+            term = ("AMB",) if msg.startswith("Ambiguous resolution") else ("NOM",) if msg.startswith("No method") else ("EXC", msg[:80])
+        except RecursionError:
+            term = ("LOOP",)
+        finally:
+            sys.setrecursionlimit(old)
+        chain = [e[0] for e in LOG]
+        hold = [i for i in range(D) if flags[i]]
+        if len(hold) >= 2:
+            exp = ([], ("AMB",))
+        else:
+            seq = (hold + [D, D + 1]) if hold else [D, D + 1]
+            ks = list(kinds) + list(skind)
+            out, t = [], None
+            for m in seq:
+                out.append(m)
+                if ks[m] == "ret":
+                    t = ("ret", m)
+                    break
+            exp = (out, t if t is not None else ("NOM",))
+        ok = (chain, term) == (exp[0], exp[1])
+        info = dict(family="dependent methods sharing a rank", kinds=kinds, flags=flags, chain=chain[:12], end=list(term), expected=[exp[0], list(exp[1])])
+        return Verdict(ok, (), info, [term[0]], nontrivial=len(chain) >= 2)
+
+    return run
+
+
 def make_run(W, shape, known_active=None):
     from ovld import Ovld
+
+    if shape.get("depkinds"):
+        return make_run_dep(W, shape, known_active)
 
     if known_active is None:
         known_active = runner.active_known_ids(PID)
@@ -372,6 +441,11 @@ def gen_shapes(tier, seed):
     for mt in itertools.product(range(n + 1), repeat=3):
         for ks in itertools.product(["ret", "next", "fnext"], repeat=3):
             fam_self.append(dict(n=n, selfarg=True, methods=[dict(pos=[t], kind=k) for t, k in zip(mt, ks)], args=[0]))
+    fam_dep = []
+    for D_ in (2,):
+        for ks in itertools.product(["next", "ret"], repeat=D_):
+            for sk in itertools.product(["next", "ret"], repeat=2):
+                fam_dep.append(dict(n=n, depkinds=list(ks), statics=list(sk)))
     fam_fact = []
     for mt in itertools.product(range(n + 1), repeat=3):
         for ks in itertools.product(["ret", "next", "fnext"], repeat=3):
@@ -380,9 +454,9 @@ def gen_shapes(tier, seed):
     for f in (shapes, fam_fwd, fam2, fam4, fam_self, fam_fact):
         rng.shuffle(f)
     if tier == "quick":
-        out = shapes[:230] + fam_fwd[:110] + fam2[:90] + fam4[:40] + fam_self[:70] + fam_fact[:70]
+        out = shapes[:230] + fam_fwd[:110] + fam2[:90] + fam4[:40] + fam_self[:70] + fam_fact[:70] + fam_dep
     else:
-        out = shapes + fam_fwd + fam2 + fam4 + fam_self + fam_fact
+        out = shapes + fam_fwd + fam2 + fam4 + fam_self + fam_fact + fam_dep
     return out, total, True
 
 
